@@ -197,6 +197,7 @@ type c07CExp struct {
 	C   *c07CExp   `json:"c,omitempty"`
 	L   []*c07CExp `json:"l,omitempty"`
 	Key string     `json:"key,omitempty"`
+	MK  []string   `json:"mk,omitempty"` // keys of a map literal, values in L
 }
 
 var c07OpCoq = map[string]string{"+": "op_add", "-": "op_sub", "*": "op_mul", "%": "op_mod", "/": "op_div",
@@ -256,6 +257,18 @@ func (e *c07CExp) Text(top bool) string {
 		return e.A.Text(false) + "." + e.Key
 	case "goto":
 		return "goto(" + e.A.Text(true) + ")"
+	case "append":
+		return e.A.Text(false) + ".append(" + e.B.Text(true) + ")"
+	case "set":
+		return e.A.Text(false) + ".set(" + e.B.Text(true) + "," + e.C.Text(true) + ")"
+	case "reverse":
+		return e.A.Text(false) + ".reverse()"
+	case "map":
+		parts := make([]string, len(e.L))
+		for i, x := range e.L {
+			parts[i] = e.MK[i] + ":" + x.Text(true)
+		}
+		return "{" + strings.Join(parts, ",") + "}"
 	}
 	panic("cexp kind " + e.K)
 }
@@ -288,6 +301,18 @@ func (e *c07CExp) Coq() string {
 		return "CMember (" + e.A.Coq() + ") " + CoqStr(e.Key) + "%N"
 	case "goto":
 		return "CGoto (" + e.A.Coq() + ")"
+	case "append":
+		return "CAppend (" + e.A.Coq() + ") (" + e.B.Coq() + ")"
+	case "set":
+		return "CSet (" + e.A.Coq() + ") (" + e.B.Coq() + ") (" + e.C.Coq() + ")"
+	case "reverse":
+		return "CReverse (" + e.A.Coq() + ")"
+	case "map":
+		parts := make([]string, len(e.L))
+		for i, x := range e.L {
+			parts[i] = "(" + CoqStr(e.MK[i]) + ", " + x.Coq() + ")"
+		}
+		return "CMap " + CoqList(parts)
 	}
 	panic("cexp kind " + e.K)
 }
@@ -334,6 +359,14 @@ func init() {
 }
 
 func c07CoqMeth(n string) string {
+	switch n {
+	case "#fork":
+		return "M_fork"
+	case "+":
+		return "M_plus"
+	case "#observe":
+		return "M_observe"
+	}
 	if c07ModelledMeths[n] {
 		return "M_" + n
 	}
@@ -350,30 +383,81 @@ func (c *C07Case) Program() (string, []string, []value.Value) {
 		vals = append(vals, t.Build())
 		return n
 	}
-	var b strings.Builder
+	argText := func(a c07Arg) string {
+		if a.Body != nil {
+			ps := strings.Join(c07ParamNames[:a.N], ",")
+			if a.N != 1 {
+				ps = "(" + ps + ")"
+			}
+			return ps + "->" + a.Body.Text(true)
+		}
+		return addVal(a.V)
+	}
+	// chain renders recv.step1.step2...; an observer bundle (last step only) needs a let and is returned separately
+	chain := func(recv string, steps []c07Step) (string, *c07Step) {
+		for i := range steps {
+			st := steps[i]
+			switch st.M {
+			case "+":
+				recv = "(" + recv + "+" + argText(st.Args[0]) + ")"
+			case "#observe":
+				return recv, &steps[i]
+			default:
+				parts := make([]string, len(st.Args))
+				for k, a := range st.Args {
+					parts[k] = argText(a)
+				}
+				recv += "." + st.M + "(" + strings.Join(parts, ",") + ")"
+			}
+		}
+		return recv, nil
+	}
+	var src string
 	if c.Static != "" {
 		parts := make([]string, len(c.StArgs))
 		for i, a := range c.StArgs {
 			parts[i] = addVal(a)
 		}
-		b.WriteString(c.Static + "(" + strings.Join(parts, ",") + ")")
+		src = c.Static + "(" + strings.Join(parts, ",") + ")"
 	} else {
-		b.WriteString(addVal(c.Src))
+		src = addVal(c.Src)
 	}
-	for _, s := range c.Steps {
-		parts := make([]string, len(s.Args))
-		for i, a := range s.Args {
-			if a.Body != nil {
-				ps := strings.Join(c07ParamNames[:a.N], ",")
-				if a.N != 1 {
-					ps = "(" + ps + ")"
-				}
-				parts[i] = ps + "->" + a.Body.Text(true)
-			} else {
-				parts[i] = addVal(a.V)
-			}
+	// split at the fork markers
+	var pre []c07Step
+	var branches [][]c07Step
+	cur := &pre
+	for _, st := range c.Steps {
+		if st.M == "#fork" {
+			branches = append(branches, nil)
+			cur = &branches[len(branches)-1]
+			continue
 		}
-		b.WriteString("." + s.M + "(" + strings.Join(parts, ",") + ")")
+		*cur = append(*cur, st)
+	}
+	var b strings.Builder
+	if len(branches) > 0 {
+		e, _ := chain(src, pre)
+		b.WriteString("let w=" + e + "; [")
+		for _, br := range branches {
+			be, _ := chain("w", br)
+			b.WriteString(be + ", ")
+		}
+		b.WriteString("w, " + src + "]")
+	} else {
+		e, obs := chain(src, pre)
+		if obs == nil {
+			b.WriteString(e)
+		} else {
+			b.WriteString("let m=" + e + "; [m.size(), m.list().size(), m.list(), [")
+			for k, a := range obs.Args {
+				kv := argText(a)
+				if k > 0 {
+					b.WriteString(", ")
+				}
+				b.WriteString("[m.isAvail(" + kv + "), try m.get(" + kv + ") catch -1, try m.put(" + kv + ",0).size() catch -1]")
+			}
+			b.WriteString("], string(m)]")
+		}
 	}
 	return b.String(), names, vals
 }
@@ -873,6 +957,22 @@ func (c *C07Case) Signature() string {
 		return "static:" + c.Static
 	}
 	last := c.Steps[len(c.Steps)-1]
+	if last.M == "#observe" {
+		ops := map[string]bool{}
+		for _, s := range c.Steps[:len(c.Steps)-1] {
+			ops[s.M] = true
+		}
+		return "map-observers after " + strings.Join(sortedKeys(ops), ",")
+	}
+	for i, s := range c.Steps {
+		if s.M == "#fork" {
+			prod := "source"
+			if i > 0 {
+				prod = c.Steps[i-1].M
+			}
+			return "sibling/source observed after modifying a result of " + prod
+		}
+	}
 	cls := []string{}
 	size := -1
 	if len(c.Steps) == 1 && c.Src != nil {
@@ -1497,6 +1597,20 @@ func c07Corpus() []*C07Case {
 		mk(c07TStr(""), s("split", c07Val(c07TStr(",")))),
 		mk(c07TMap([]string{"a"}, c07TInt(1)), s("put", c07Val(c07TStr("a")), c07Val(c07TInt(2)))),
 		mk(c07TMap([]string{"a"}, c07TInt(1)), s("isAvail", c07Val(c07TStr("zz")), c07Val(c07TInt(5)))),
+		// a window of movingWindow that shares the source's spare capacity: append writes into the neighbours
+		mk(l(1, 2, 3, 4), s("movingWindow", c07Fn(1, c07CArg(0))), s("#fork"), s("map", c07Fn(1, &c07CExp{K: "append", A: c07CArg(0), B: c07CInt(0)}))),
+		mk(l(1, 2, 3, 4), s("movingWindowRemove", c07Fn(1, c07COp(">", &c07CExp{K: "size", A: c07CArg(0)}, c07CInt(2)))), s("#fork"), s("map", c07Fn(1, &c07CExp{K: "append", A: c07CArg(0), B: c07CInt(0)}))),
+		mk(l(1, 2, 3, 4), s("combineN", c07Val(c07TInt(2)), c07Fn(1, c07CArg(0))), s("#fork"), s("map", c07Fn(1, &c07CExp{K: "append", A: c07CArg(0), B: c07CInt(0)}))),
+		mk(l(1, 2, 3, 4), s("top", c07Val(c07TInt(2))), s("#fork"), s("append", c07Val(c07TInt(7))), s("#fork"), s("append", c07Val(c07TInt(8)))),
+		// a replacement map with a key the original does not have must not add that key for any observer
+		mk(c07TMap([]string{"a", "b"}, c07TInt(1), c07TInt(2)),
+			s("replace", c07Fn(1, &c07CExp{K: "map", MK: []string{"b", "c"}, L: []*c07CExp{c07COp("+", &c07CExp{K: "member", A: c07CArg(0), Key: "b"}, c07CInt(5)), c07CInt(30)}})),
+			s("#observe", c07Val(c07TStr("a")), c07Val(c07TStr("b")), c07Val(c07TStr("c")), c07Val(c07TStr("zz")))),
+		mk(c07TMap([]string{"a", "b"}, c07TInt(1), c07TInt(2)),
+			s("replace", c07Fn(1, &c07CExp{K: "map", MK: []string{"c"}, L: []*c07CExp{c07CInt(30)}})),
+			s("replace", c07Fn(1, &c07CExp{K: "map", MK: []string{"a"}, L: []*c07CExp{c07CInt(9)}})),
+			s("put", c07Val(c07TStr("d")), c07Val(c07TInt(4))),
+			s("#observe", c07Val(c07TStr("a")), c07Val(c07TStr("c")), c07Val(c07TStr("d")))),
 	}
 }
 
@@ -1587,7 +1701,7 @@ func cmdC07(seed int64, tier, outDir string) {
 	}
 	r := NewRng(seed)
 	sum := NewSummary("C07", seed, tier)
-	sum.Rule = "pipelines source(.method(args)){0..4} run through value.New().Generate; sources: lists (empty, singleton, duplicates, sorted, reversed, random ints incl. extremes, mixed int/float, nested lists/maps, strings, heterogeneous; eager or behind a lazy map stage), unicode strings, maps, static calls; callbacks from a closed pool with Coq twins; 7% of the steps are misuse on purpose (call arity, argument type, callback arity, callback failing at an element or returning the wrong type, method of another type). Every case applies at least one built-in; distinct by program text and argument values"
+	sum.Rule = "pipelines source(.method(args)){0..4} run through value.New().Generate; sources: lists (empty, singleton, duplicates, sorted, reversed, random ints incl. extremes, mixed int/float, nested lists/maps, strings, heterogeneous; eager or behind a lazy map stage), unicode strings, maps, static calls; callbacks from a closed pool with Coq twins; 7% of the steps are misuse on purpose; every 7th case is a sibling/source observation (let w = source.producer; [w.modified..., w, source] with append/set/reverse/+ on lists produced by movingWindow*, combineN, groupByEqual, top, skip, cross, map) and every 7th a map pipeline (literal/put/merge/replace chains up to 12) followed by the observer bundle size, list, isAvail, get, put, string for original, replacement-only and absent keys (call arity, argument type, callback arity, callback failing at an element or returning the wrong type, method of another type). Every case applies at least one built-in; distinct by program text and argument values"
 	cw := NewCaseWriter(outDir, "From P2 Require Import Base.Prelude Sem.Num Sem.Syntax Sem.Ops Lib.Names Lib.Builtins Run.C07Run.", "c07_case", "c07_id", "c07_im", "c07_is", 450)
 	id := 0
 	if optReplay != "" {
@@ -1608,7 +1722,14 @@ func cmdC07(seed int64, tier, outDir string) {
 	}
 	for i := 0; i < n; i++ {
 		id++
-		c07Run(r.c07GenCase(), id, sum, cw)
+		switch {
+		case i%7 == 3:
+			c07Run(r.c07ForkCase(), id, sum, cw)
+		case i%7 == 5:
+			c07Run(r.c07MapObserveCase(), id, sum, cw)
+		default:
+			c07Run(r.c07GenCase(), id, sum, cw)
+		}
 	}
 	cw.Flush()
 	sum.CaseFiles = cw.files
@@ -1621,4 +1742,194 @@ func cmdC07(seed int64, tier, outDir string) {
 		return len(fmt.Sprint(sum.GoViolations[i].Human["program"])) < len(fmt.Sprint(sum.GoViolations[j].Human["program"]))
 	})
 	sum.Write(outDir)
+}
+
+// ---------- compositions that observe siblings and sources (aliasing), and map observer bundles ----------
+
+func c07Step1(m string, args ...c07Arg) c07Step { return c07Step{M: m, Args: args} }
+
+// let w = src.producer; [w.branch..., w, src]: a list PRODUCED by a built-in is extended or modified
+// and the result, the produced list and the source are all observed
+func (r *Rng) c07ForkCase() *C07Case {
+	c := &C07Case{Origin: "fork"}
+	n := 2 + r.Pick(7)
+	c.Src = c07TList()
+	x := r.Pick(4)
+	for i := 0; i < n; i++ {
+		c.Src.Items = append(c.Src.Items, c07TInt(x))
+		if r.Chance(0.8) {
+			x += r.Pick(3)
+		} else {
+			x -= r.Pick(2)
+		}
+	}
+	if r.Chance(0.3) {
+		c.Src.Repr = "lazy-map"
+	}
+	elem := "scalar" // what the items of w are: scalar, list, group
+	switch r.Pick(10) {
+	case 0, 1:
+		c.Steps = append(c.Steps, c07Step1("movingWindow", c07Fn(1, []*c07CExp{c07CArg(0), c07COp("/", c07CArg(0), c07CInt(2))}[r.Pick(2)])))
+		elem = "list"
+	case 2:
+		c.Steps = append(c.Steps, c07Step1("movingWindowRemove", c07Fn(1, c07COp(">", &c07CExp{K: "size", A: c07CArg(0)}, c07CInt(1+r.Pick(3))))))
+		elem = "list"
+	case 3:
+		c.Steps = append(c.Steps, c07Step1("combineN", c07Val(c07TInt(1+r.Pick(3))), c07Fn(1, c07CArg(0))))
+		elem = "list"
+	case 4:
+		c.Steps = append(c.Steps, c07Step1("groupByEqual", c07Fn(1, c07COp("%", c07CArg(0), c07CInt(2+r.Pick(2))))))
+		elem = "group"
+	case 5:
+		c.Steps = append(c.Steps, c07Step1("top", c07Val(c07TInt(r.Pick(n+2)))))
+	case 6:
+		c.Steps = append(c.Steps, c07Step1("skip", c07Val(c07TInt(r.Pick(n+1)))))
+	case 7:
+		c.Steps = append(c.Steps, c07Step1("cross", c07Val(c07TInts(1, 2)), c07Fn(2, &c07CExp{K: "list", L: []*c07CExp{c07CArg(0), c07CArg(1)}})))
+		elem = "list"
+	case 8:
+		c.Steps = append(c.Steps, c07Step1("map", c07Fn(1, &c07CExp{K: "list", L: []*c07CExp{c07CArg(0), c07CInt(r.Pick(5))}})))
+		elem = "list"
+	default: // the source itself, or a reversed / appended copy of it
+		if r.Chance(0.5) {
+			c.Steps = append(c.Steps, c07Step1([]string{"reverse", "eval"}[r.Pick(2)]))
+		}
+	}
+	modElem := func(target *c07CExp) *c07CExp {
+		switch r.Pick(5) {
+		case 0:
+			return &c07CExp{K: "append", A: target, B: c07CInt(0)}
+		case 1:
+			return &c07CExp{K: "append", A: &c07CExp{K: "append", A: target, B: c07CInt(0)}, B: c07CInt(1)}
+		case 2:
+			return &c07CExp{K: "set", A: target, B: c07CInt(0), C: c07CInt(9)}
+		case 3:
+			return &c07CExp{K: "reverse", A: target}
+		}
+		return c07COp("+", target, &c07CExp{K: "list", L: []*c07CExp{c07CInt(7)}})
+	}
+	nb := 1 + r.Pick(2)
+	for b := 0; b < nb; b++ {
+		c.Steps = append(c.Steps, c07Step1("#fork"))
+		whole := elem == "scalar" || r.Chance(0.25)
+		if whole {
+			switch r.Pick(5) {
+			case 0:
+				c.Steps = append(c.Steps, c07Step1("append", c07Val(c07TInt(70+b))))
+			case 1:
+				c.Steps = append(c.Steps, c07Step1("append", c07Val(c07TInt(70+b))), c07Step1("append", c07Val(c07TInt(80+b))))
+			case 2:
+				c.Steps = append(c.Steps, c07Step1("set", c07Val(c07TInt(0)), c07Val(c07TInt(90+b))))
+			case 3:
+				c.Steps = append(c.Steps, c07Step1("reverse"))
+			default:
+				c.Steps = append(c.Steps, c07Step1("+", c07Val(c07TInts(7, 8))))
+			}
+			continue
+		}
+		target := c07CArg(0)
+		if elem == "group" {
+			target = &c07CExp{K: "member", A: c07CArg(0), Key: "values"}
+		}
+		c.Steps = append(c.Steps, c07Step1("map", c07Fn(1, modElem(target))))
+	}
+	return c
+}
+
+// literal / put / merge / replace chains on a map, then every keyed and iteration observer at once
+func (r *Rng) c07MapObserveCase() *C07Case {
+	c := &C07Case{Origin: "map-observe"}
+	pool := []string{"a", "b", "c", "k", "zz"}
+	odd := []string{"", "ä", "x y"}
+	c.Src = c07TMap(nil)
+	have := map[string]bool{}
+	perm := r.Perm(len(pool))
+	for i := 0; i < r.Pick(4); i++ {
+		k := pool[perm[i]]
+		have[k] = true
+		c.Src.Keys = append(c.Src.Keys, k)
+		c.Src.Items = append(c.Src.Items, c07TInt(r.Pick(9)))
+	}
+	if r.Chance(0.2) {
+		k := odd[r.Pick(len(odd))]
+		have[k] = true
+		c.Src.Keys = append(c.Src.Keys, k)
+		c.Src.Items = append(c.Src.Items, c07TStr("s"))
+	}
+	if r.Chance(0.3) {
+		c.Src.Repr = []string{"merge", "replace", "map-method"}[r.Pick(3)] // representations that iterate in key order of the tree
+	}
+	nops := []int{1, 1, 2, 2, 3, 5, 8, 12}[r.Pick(8)]
+	onlyReplace := r.Chance(0.4)
+	for i := 0; i < nops; i++ {
+		op := r.Pick(4)
+		if onlyReplace {
+			op = 2
+		}
+		switch op {
+		case 0: // put, mostly a new key
+			k := append(append([]string{}, pool...), odd...)[r.Pick(len(pool)+len(odd))]
+			if have[k] && r.Chance(0.93) {
+				k = fmt.Sprintf("n%d", i)
+			}
+			have[k] = true
+			c.Steps = append(c.Steps, c07Step1("put", c07Val(c07TStr(k)), c07Val(c07TInt(10+i))))
+		case 1: // merge with a (mostly) disjoint map
+			o := c07TMap(nil)
+			for j := 0; j < 1+r.Pick(2); j++ {
+				k := fmt.Sprintf("m%d_%d", i, j)
+				if r.Chance(0.05) {
+					k = pool[r.Pick(len(pool))]
+				}
+				dup := false
+				for _, ok := range o.Keys {
+					dup = dup || ok == k
+				}
+				if dup {
+					continue
+				}
+				have[k] = true
+				o.Keys = append(o.Keys, k)
+				o.Items = append(o.Items, c07TInt(20+i))
+			}
+			c.Steps = append(c.Steps, c07Step1("+", c07Val(o)))
+		default: // replace: keys inside and outside the key set
+			lit := &c07CExp{K: "map"}
+			perm := r.Perm(len(pool))
+			for j := 0; j < 1+r.Pick(3); j++ {
+				k := pool[perm[j]]
+				var v *c07CExp = c07CInt(30 + i*3 + j)
+				if have[k] && r.Chance(0.3) {
+					v = c07COp("+", &c07CExp{K: "member", A: c07CArg(0), Key: k}, c07CInt(5))
+				} else if r.Chance(0.02) {
+					v = &c07CExp{K: "member", A: c07CArg(0), Key: "nokey"}
+				}
+				lit.MK = append(lit.MK, k)
+				lit.L = append(lit.L, v)
+			}
+			var body *c07CExp = lit
+			if r.Chance(0.02) {
+				body = c07CInt(3) // not a map
+			}
+			c.Steps = append(c.Steps, c07Step1("replace", c07Fn(1, body)))
+		}
+	}
+	obs := c07Step1("#observe")
+	keys := append([]string{}, pool...)
+	keys = append(keys, "nokey")
+	if r.Chance(0.5) {
+		keys = append(keys, odd[r.Pick(len(odd))])
+	}
+	for k := range have {
+		if strings.HasPrefix(k, "n") || strings.HasPrefix(k, "m") {
+			keys = append(keys, k)
+			break
+		}
+	}
+	sort.Strings(keys)
+	for _, k := range keys {
+		obs.Args = append(obs.Args, c07Val(c07TStr(k)))
+	}
+	c.Steps = append(c.Steps, obs)
+	return c
 }
